@@ -1534,6 +1534,58 @@ def _while_to_for(node) -> bool:
     node.body = rewrite(node.body)
     return changed[0]
 
+def _offset_ranges(node) -> bool:
+    """`for a in range(S, S + N): BODY`  (S not a constant)  ->  `for _ro in range(N): BODY[a := S + _ro]`  -- the loop runs N times
+    whatever S is; engines that unroll loops need the count, not the start.  a must not be rebound in the body, S and N not changed by it."""
+    changed = [False]
+    counter = [0]
+
+    class T(ast.NodeTransformer):
+        def visit_For(self, n: ast.For):
+            self.generic_visit(n)
+            it = n.iter
+            if not (isinstance(n.target, ast.Name) and isinstance(it, ast.Call) and isinstance(it.func, ast.Name) and it.func.id == "range"
+                    and len(it.args) == 2 and not it.keywords and not n.orelse):
+                return n
+            S, E = it.args
+            if isinstance(S, ast.Constant):
+                return n
+            N = None
+            if isinstance(E, ast.BinOp) and isinstance(E.op, ast.Add):
+                if ast.dump(E.left) == ast.dump(S):
+                    N = E.right
+                elif ast.dump(E.right) == ast.dump(S):
+                    N = E.left
+            if N is None:
+                return n
+            a = n.target.id
+            free = {x.id for x in ast.walk(S) if isinstance(x, ast.Name)} | {x.id for x in ast.walk(N) if isinstance(x, ast.Name)}
+            for st in n.body:
+                for x in ast.walk(st):
+                    if isinstance(x, ast.Name) and isinstance(x.ctx, (ast.Store, ast.Del)) and (x.id == a or x.id in free):
+                        return n
+            if any(isinstance(x, ast.Call) for x in ast.walk(S)):
+                return n
+            counter[0] += 1
+            i = f"_ro{counter[0]}"
+            repl = ast.BinOp(left=copy.deepcopy(S), op=ast.Add(), right=ast.Name(id=i, ctx=ast.Load()))
+
+            class R(ast.NodeTransformer):
+                def visit_Name(self, x: ast.Name):
+                    if x.id == a and isinstance(x.ctx, ast.Load):
+                        return ast.copy_location(copy.deepcopy(repl), x)
+                    return x
+            new = copy.copy(n)
+            new.target = ast.Name(id=i, ctx=ast.Store())
+            new.iter = ast.Call(func=ast.Name(id="range", ctx=ast.Load()), args=[N], keywords=[])
+            new.body = [R().visit(copy.deepcopy(st)) for st in n.body]
+            changed[0] = True
+            return ast.copy_location(new, n)
+
+    T().visit(node)
+    ast.fix_missing_locations(node)
+    return changed[0]
+
 
 def canonicalise(model, f) -> bool:
     """Rewrite f.node in place (a copy); returns True when something changed."""
@@ -1542,6 +1594,9 @@ def canonicalise(model, f) -> bool:
     named = _alias_locals(model, f, node) or named
     if any(isinstance(n, ast.While) for n in ast.walk(node)):
         named = _while_to_for(node) or named
+    if any(isinstance(n, ast.For) and isinstance(n.iter, ast.Call) and isinstance(n.iter.func, ast.Name) and n.iter.func.id == "range" and len(n.iter.args) == 2
+           for n in ast.walk(node)):
+        named = _offset_ranges(node) or named
     if any(isinstance(n, (ast.Name, ast.Attribute)) and (getattr(n, "id", None) == "reduce" or getattr(n, "attr", None) == "reduce") for n in ast.walk(node)):
         named = _reduce_to_loop(node) or named
     # the tables are looked up in the function as it stands now (named constants already written out: `Kind.A` as a key is its number)
